@@ -20,7 +20,7 @@ use crate::par::for_each_index;
 use crate::proc::run_children;
 use crate::rng::Rng;
 use chumsky::error::Rich;
-use chumsky::pratt::{infix, left, prefix};
+use chumsky::pratt::{infix, left, postfix, prefix, right};
 use chumsky::prelude::*;
 use chumsky::recursive::Recursive;
 use serde_json::{json, Value};
@@ -406,6 +406,24 @@ fn depth_shapes<'s>() -> Vec<(&'static str, u8, Boxed<'s, 's, &'s str, usize, ED
         .boxed(),
     ));
     v.push((
+        "pratt right-associative infix chain: atom.pratt((infix(right(1), '^', max+1),))",
+        3,
+        just::<_, &str, ED>('x').to(0usize).pratt((infix(right(1), just('^'), |_a: usize, _, b: usize, _| b + 1),)).boxed(),
+    ));
+    v.push((
+        "pratt left-associative infix chain: atom.pratt((infix(left(1), '^', +1),))",
+        3,
+        just::<_, &str, ED>('x').to(0usize).pratt((infix(left(1), just('^'), |a: usize, _, _b: usize, _| a + 1),)).boxed(),
+    ));
+    v.push((
+        "pratt postfix chain then mixed powers: atom.pratt((postfix(2, '!'), infix(right(1), '^'), prefix(3, '-')))",
+        4,
+        just::<_, &str, ED>('x')
+            .to(0usize)
+            .pratt((postfix(2, just('!'), |a: usize, _, _| a + 1), infix(right(1), just('^'), |_a: usize, _, b: usize, _| b + 1), prefix(3, just('-'), |_, a: usize, _| a + 1)))
+            .boxed(),
+    ));
+    v.push((
         "recursion through memoized(): recursive(|t| ('(' t ')').memoized() | 'x'*)",
         0,
         recursive(|t| just::<_, &str, ED>('(').ignore_then(t).then_ignore(just(')')).map(|d: usize| d + 1).memoized().or(just('x').repeated().count().map(|_| 0usize))).boxed(),
@@ -417,6 +435,8 @@ fn depth_input(family: u8, d: usize) -> String {
     match family {
         0 => "(".repeat(d) + &")".repeat(d),
         1 => "x,".repeat(d) + "x",
+        3 => "x^".repeat(d) + "x",
+        4 => "x".to_string() + &"!".repeat(d),
         _ => "-".repeat(d) + "x",
     }
 }
@@ -627,7 +647,7 @@ pub fn run(cx: &RunCtx) -> i32 {
         cx,
         acc,
         Finish {
-            rule: format!("(1) every guarded recursive definition whose body has <= {size} nodes over a class with 5 guarded reference shapes (prefix, skip-any, delimited, optional, inside a bounded repetition), built with recursive() and with declare/define, x every input <= {max_len} over {{a,b,é}}: acceptance, output with the extent of every node at every recursion level, emitted errors, primary error, probe trace and inspector state against the reference model (whose reference rule is the unrolling), in parse and check mode; for bodies with <= 2 references also real-vs-real against the explicit (max input length + 1)-fold unrolling; 3 tower grammars x depths 0..64; {n_rand} random definitions incl. two mutually recursive ones x 8 inputs <= 14. (2) 11 ways of juggling handles (clone / boxed / Rc / Either / moved / dropped before use, declare-define in both orders, mutual) x all inputs <= {} over {{a,b,x}} and towers to depth 40 against a hand-written depth counter. (3) 7 nesting shapes (recursive, declare/define, mutual through boxed, right-nested list, Pratt prefix chain, Pratt with recursive parenthesised atom, through memoized) x depths up to 10^6 in child processes on a thread with a 512 KiB stack: must exit normally with the tower's depth. (4) a second define() (3 variants) must panic, the message naming the harness' call site, and the parser must keep its first definition. (5) a small-depth slice under Miri. Non-trivial: reference evaluation reached recursion depth >= 2 / tower of depth >= 2 / depth run survived", cx.t(6, 8)),
+            rule: format!("(1) every guarded recursive definition whose body has <= {size} nodes over a class with 5 guarded reference shapes (prefix, skip-any, delimited, optional, inside a bounded repetition), built with recursive() and with declare/define, x every input <= {max_len} over {{a,b,é}}: acceptance, output with the extent of every node at every recursion level, emitted errors, primary error, probe trace and inspector state against the reference model (whose reference rule is the unrolling), in parse and check mode; for bodies with <= 2 references also real-vs-real against the explicit (max input length + 1)-fold unrolling; 3 tower grammars x depths 0..64; {n_rand} random definitions incl. two mutually recursive ones x 8 inputs <= 14. (2) 11 ways of juggling handles (clone / boxed / Rc / Either / moved / dropped before use, declare-define in both orders, mutual) x all inputs <= {} over {{a,b,x}} and towers to depth 40 against a hand-written depth counter. (3) 10 nesting shapes (recursive, declare/define, mutual through boxed, right-nested list, Pratt prefix chain, right- and left-associative infix chains, postfix chain, Pratt with recursive parenthesised atom, through memoized) x depths up to 10^6 in child processes on a thread with a 512 KiB stack: must exit normally with the tower's depth. (4) a second define() (3 variants) must panic, the message naming the harness' call site, and the parser must keep its first definition. (5) a small-depth slice under Miri. Non-trivial: reference evaluation reached recursion depth >= 2 / tower of depth >= 2 / depth run survived", cx.t(6, 8)),
             exhaustive: false,
             exhaustive_note: format!("bodies <= {size} nodes x inputs <= {max_len}: complete"),
             assumptions: vec![
